@@ -21,9 +21,12 @@ from .leanproj import proof_coverage
 ROOT = os.path.dirname(os.path.dirname(os.path.abspath(__file__)))
 PROPS = ["C20"]
 DRIVER = "qdriver"
-BUDGET = {"quick": 12000, "thorough": 240000}          # generated histories
+BUDGET = {"quick": 40000, "thorough": 1000000}         # generated histories
 MAXLEN = {"quick": 30, "thorough": 45}
-SEARCH = {"quick": 20000, "thorough": 60000}            # extra monitor-only histories when proof/correspondence broke
+SEARCH = {"quick": 40000, "thorough": 200000}           # extra monitor-only histories when proof/correspondence broke
+# exhaustive small scope: every op sequence over ALPHABET up to this length (each followed by the wind-down)
+ALPHABET = ["put 1", "spawn", "join", "cancel 0", "cancel 1", "gate 0 ok", "gate 0 exc", "gate 1 ok", "run", "run 1"]
+ENUM_LEN = {"quick": 4, "thorough": 5}
 
 
 def corpus(prop):
@@ -39,6 +42,23 @@ def history(seed, i, maxlen):
     rng = random.Random(seed * 1000003 + i)
     profile = QW.PROFILES[i % len(QW.PROFILES)]
     return profile, QW.gen_ops(rng, profile, maxlen)
+
+
+def enum_count(maxlen):
+    return sum(len(ALPHABET) ** n for n in range(1, maxlen + 1))
+
+
+def enum_history(i):
+    """the i-th op sequence in length-then-lexicographic order"""
+    n, b = 1, len(ALPHABET)
+    while i >= b ** n:
+        i -= b ** n
+        n += 1
+    ops = []
+    for _ in range(n):
+        ops.append(ALPHABET[i % b])
+        i //= b
+    return ops[::-1]
 
 
 def model_obs(batches):
@@ -68,13 +88,16 @@ def examine(r, mobs):
 
 
 def work(job):
-    seed, start, count, maxlen, bodies, use_model = job
+    kind, seed, start, count, maxlen, bodies, use_model = job
     runs = []
     for (name, ops) in bodies:
         runs.append((name, "corpus", ops))
     for i in range(start, start + count):
-        profile, ops = history(seed, i, maxlen)
-        runs.append((f"gen:{seed}:{i}", profile, ops))
+        if kind == "enum":
+            runs.append((f"enum:{i}", "exhaustive", enum_history(i)))
+        else:
+            profile, ops = history(seed, i, maxlen)
+            runs.append((f"gen:{seed}:{i}", profile, ops))
     results = [QW.execute(ops) for (_, _, ops) in runs]
     mobs, model_error = [None] * len(runs), None
     if use_model:
@@ -104,12 +127,21 @@ def work(job):
         s["digests"].add(dg)
         if r["taken"] > 0:
             s["nontrivial"].add(dg)
-            if len(s["samples"]) < 1:
+            if not any(x["profile"] == profile for x in s["samples"]):
                 s["samples"].append({"source": name, "profile": profile, "ops": ops, "items_taken_by_blocks": r["taken"]})
         if any(f["kind"] == "diff" for f in fails):
             s["diverging"] += 1
         for f in fails:
+            s["n_" + f["kind"]] = s.get("n_" + f["kind"], 0) + 1
             s["failures"].append(dict(f, source=name, ops=ops))
+    # keep the shortest few per kind of failure (a broken library fails in most histories)
+    keep, seen = [], collections.Counter()
+    for f in sorted(s["failures"], key=lambda f: len(f["ops"])):
+        key = (f["kind"], f.get("monitor"))
+        if seen[key] < 3:
+            seen[key] += 1
+            keep.append(f)
+    s["failures"] = keep
     return s
 
 
@@ -139,24 +171,30 @@ def shrink_failure(f, use_model=True):
         return list(f["ops"])
 
 
-def sweep(seed, total, maxlen, jobs, bodies, use_model, offset=0):
-    chunks = max(jobs * 3, 1)
-    per = max(1, -(-total // chunks))
-    jobl = [(seed, offset + k * per, per, maxlen, bodies if k == 0 else [], use_model) for k in range(chunks)]
+def sweep(seed, total, maxlen, jobs, bodies, use_model, offset=0, enum=0):
+    per = max(1, min(4000, -(-total // max(jobs * 3, 1))))
+    jobl = [("gen", seed, offset + a, min(per, total - a), maxlen, [], use_model) for a in range(0, total, per)]
+    if bodies:
+        jobl.insert(0, ("gen", seed, 0, 0, maxlen, bodies, use_model))          # the corpus runs first
+    jobl += [("enum", seed, a, min(2000, enum - a), maxlen, [], use_model) for a in range(0, enum, 2000)]
+    chunks = len(jobl)
     agg = {"histories": 0, "lines": 0, "compared": 0, "stats": collections.Counter(), "failures": [], "digests": set(),
            "nontrivial": set(), "samples": [], "handles": 0, "diverging": 0, "model_errors": [],
-           "profiles": collections.Counter()}
+           "profiles": collections.Counter(), "n_monitor": 0, "n_diff": 0}
     with mp.Pool(max(1, min(jobs, chunks))) as pool:
         for s in pool.imap_unordered(work, jobl):
             for k in ("histories", "lines", "compared", "handles", "diverging"):
                 agg[k] += s[k]
+            agg["n_monitor"] += s.get("n_monitor", 0)
+            agg["n_diff"] += s.get("n_diff", 0)
             agg["stats"].update(s["stats"])
             agg["profiles"].update(s["profiles"])
             agg["failures"].extend(s["failures"])
             agg["digests"] |= s["digests"]
             agg["nontrivial"] |= s["nontrivial"]
-            if len(agg["samples"]) < 3:
-                agg["samples"].extend(s["samples"])
+            for x in s["samples"]:
+                if sum(1 for y in agg["samples"] if y["profile"] == x["profile"]) < 1:
+                    agg["samples"].append(x)
             if s["model_error"]:
                 agg["model_errors"].append(s["model_error"])
     return agg
@@ -179,7 +217,8 @@ def report_monitor_failures(prop, mons, out, reported):
 
 def run(prop, tier, seed, jobs, proof, out):
     bodies = corpus(prop)
-    agg = sweep(seed, BUDGET[tier], MAXLEN[tier], jobs, bodies, True)
+    n_enum = enum_count(ENUM_LEN[tier])
+    agg = sweep(seed, BUDGET[tier], MAXLEN[tier], jobs, bodies, True, enum=n_enum)
     diffs = [f for f in agg["failures"] if f["kind"] == "diff"]
     mons = [f for f in agg["failures"] if f["kind"] == "monitor"]
     reported = set()
@@ -221,15 +260,15 @@ def run(prop, tier, seed, jobs, proof, out):
         "distinct_nontrivial": len(agg["nontrivial"]),
         "rule": "op histories generated from random.Random(VERIF_SEED*1000003+i) in three profiles (fifo: handles run in loop "
                 "order; mixed/wild: `run k` picks the k-th ready handle, wild also names non-existent consumers), plus the "
-                "corpus; each executed on the real Queue one event-loop handle at a time (then wound down: all handles run, "
+                "corpus, plus every op sequence up to a small length over a reduced alphabet (exhaustive_small_scope); each executed on the real Queue one event-loop handle at a time (then wound down: all handles run, "
                 "all open gates resolved) and on the Lean model; distinct = distinct generated op sequences; non-trivial = "
                 "at least one item was handed to an `async with` block",
-        "samples": agg["samples"][:3],
+        "samples": sorted(agg["samples"], key=lambda x: x["profile"])[:5],
         "traces_validated_against_impl": agg["histories"] - agg["diverging"] if not agg["model_errors"] else 0,
         "observation_lines_compared": agg["compared"],
         "handles_run": agg["handles"],
         "diverging_histories": agg["diverging"],
-        "monitor_findings": len(mons),
+        "monitor_findings": agg["n_monitor"],
         "monitors": ["task_done-raised-ValueError", "block-exit-marks-not-exactly-once", "mark-without-block-exit",
                      "marks-ne-block-exits", "cancelled-waiter-disturbed-queue", "join-blocked-with-nothing-outstanding",
                      "join-returned-early", "join-not-released", "task_done-outside-consumer"],
@@ -239,6 +278,9 @@ def run(prop, tier, seed, jobs, proof, out):
         "corpus_histories": len(bodies),
         "observed_fields": list(QW.FIELDS),
         "exhaustive": False,
+        "exhaustive_small_scope": {"alphabet": ALPHABET, "max_len": ENUM_LEN[tier], "histories": n_enum, "complete": True,
+                                   "note": "every op sequence over the alphabet up to max_len, each followed by the wind-down; "
+                                           "counted in evaluations"},
     })
     ev = {"property_id": prop, "tier": tier, "seed": seed, "level": "proof", "coverage": cov,
           "assumptions": [
